@@ -428,3 +428,137 @@ func TestC19StreamClosesRegress(t *testing.T) {
 func TestC19StreamCloses(t *testing.T) {
 	hx.Check(t, hC19, "TestC19StreamCloses", genC19StreamCloses, propC19StreamCloses)
 }
+
+// ---------------------------------------------------------------------------
+// A call made from inside a callback, after time has passed. The Stream of a slow consumer sleeps in its first
+// callback and then calls Maintain (or pushes a record of a fresh sequence): that is "a Maintain or PushMessage
+// made after the timeout has elapsed" like any other, and the events that have expired by then — they were not
+// expired when the interrupted call looked — are delivered by it. Every event is a lone SYSCALL record, created
+// in ascending order, maxInFlight is large: time is the only cause there is.
+
+func genC19Nested(t *rapid.T) History {
+	T := rapid.SampledFrom([]time.Duration{4 * time.Millisecond, 6 * time.Millisecond}).Draw(t, "timeout")
+	h := History{Windowed: true, MaxInFlight: 64, TimeoutNs: int64(T), Base: rapid.SampledFrom(baseChoices).Draw(t, "base")}
+	h.Reenter = rapid.SampledFrom([]string{"sleepmaintain", "sleepmaintain", "sleeppush"}).Draw(t, "nestedcall")
+	h.ReenterSleepUs = int(T/time.Microsecond) + 1000
+	part := int(T/time.Microsecond) * 6 / 10
+	seq := uint32(0)
+	// old events; 0.6 T later young events (the old ones are still live: nothing is delivered); 0.6 T later the old
+	// ones have expired and the young ones have not: the next call delivers the old ones, and the Stream sleeps in
+	// its callback until the young ones have expired, too
+	for i, n := 0, rapid.IntRange(1, 3).Draw(t, "old"); i < n; i++ {
+		seq++
+		h.Ops = append(h.Ops, Op{K: opPush, Seq: h.Base + seq, Typ: 1300})
+	}
+	h.Ops = append(h.Ops, Op{K: opSleep, SleepUs: part})
+	for i, n := 0, rapid.IntRange(1, 4).Draw(t, "young"); i < n; i++ {
+		seq++
+		h.Ops = append(h.Ops, Op{K: opPush, Seq: h.Base + seq, Typ: 1300})
+	}
+	h.Ops = append(h.Ops, Op{K: opSleep, SleepUs: part})
+	if rapid.IntRange(0, 2).Draw(t, "trigger") > 0 {
+		h.Ops = append(h.Ops, Op{K: opMaintain})
+	} else {
+		seq++
+		h.Ops = append(h.Ops, Op{K: opPush, Seq: h.Base + seq, Typ: 1300})
+	}
+	h.Ops = append(h.Ops, Op{K: opSleep, SleepUs: 100}, Op{K: opMaintain}, Op{K: opClose})
+	return h
+}
+
+func propC19Nested(h History) error {
+	tr := exec(h)
+	if !tr.Created {
+		return fmt.Errorf("NewReassembler failed: %v", tr.NewErr)
+	}
+	T := time.Duration(h.TimeoutNs)
+	type ev struct {
+		seq       uint32
+		createdT1 time.Time
+		delivered bool
+		inStep    bool // created by the call that is being processed
+	}
+	var evs []*ev // in creation order = window order
+	bySeq := map[uint32]*ev{}
+	nestedDelivered := 0
+	for i, o := range h.Ops {
+		st := &tr.Steps[i]
+		// deliveries of this step, and the nested calls in it
+		type call struct {
+			t0        time.Time
+			err       error
+			delivered map[uint32]bool
+		}
+		var calls []*call
+		var cur *call
+		stepDelivered := map[uint32]bool{}
+		for _, cb := range st.CBs {
+			switch {
+			case cb.NestedClose == "begin-call":
+				cur = &call{t0: cb.NestedT, delivered: map[uint32]bool{}}
+				calls = append(calls, cur)
+			case cb.NestedClose == "end-call":
+				cur.err = cb.NestedErr
+				cur = nil
+			case cb.IsEv && len(cb.Seqs) > 0:
+				stepDelivered[cb.Seqs[0]] = true
+				if cur != nil {
+					cur.delivered[cb.Seqs[0]] = true
+				}
+			}
+		}
+		if o.K == opPush && bySeq[o.Seq] == nil {
+			// the event this very push creates exists before any callback of the call: when the Stream has slept, it is
+			// at least that old
+			e := &ev{seq: o.Seq, inStep: true}
+			bySeq[o.Seq] = e
+			evs = append(evs, e)
+		}
+		for _, c := range calls {
+			if o.K == opClose {
+				break // Close is under way: a nested Maintain fails, and Close delivers everything anyway
+			}
+			for _, e := range evs {
+				if e.inStep {
+					e.createdT1 = c.t0.Add(-time.Duration(h.ReenterSleepUs) * time.Microsecond)
+				}
+			}
+			if c.err != nil {
+				return fmt.Errorf("op %d (%s): the call the Stream made from inside a callback returned %v", i, o.K, c.err)
+			}
+			for _, e := range evs {
+				if e.delivered || !c.t0.After(e.createdT1.Add(T)) {
+					continue
+				}
+				// definitely expired when the nested call began; everything older has been created earlier and is
+				// expired as well: it goes in this step — taken by the interrupted call before, or delivered by
+				// the nested call
+				if !stepDelivered[e.seq] {
+					return fmt.Errorf("op %d (%s): the Stream slept %v inside a callback and then made a call (%s); event seq %d (created in an earlier call that returned %v before, timeout %v) was the oldest buffered event and expired, and was not delivered", i, o.K, time.Duration(h.ReenterSleepUs)*time.Microsecond, h.Reenter, e.seq, c.t0.Sub(e.createdT1), T)
+				}
+				if c.delivered[e.seq] {
+					nestedDelivered++
+				}
+			}
+		}
+		for s := range stepDelivered {
+			if e := bySeq[s]; e != nil {
+				e.delivered = true
+			}
+		}
+		for _, e := range evs {
+			if e.inStep {
+				e.inStep, e.createdT1 = false, st.T1
+			}
+		}
+	}
+	if nestedDelivered > 0 {
+		hC19.Class("nested-call-after-sleep-delivers-expired-events")
+		hC19.NonTrivial(fpHistory(h), h.Describe)
+	}
+	return nil
+}
+
+func TestC19NestedRegress(t *testing.T) { hx.Regress(t, hC19, "TestC19Nested", propC19Nested) }
+
+func TestC19Nested(t *testing.T) { hx.Check(t, hC19, "TestC19Nested", genC19Nested, propC19Nested) }
